@@ -8,6 +8,7 @@
 -/
 import SA.Props.C06
 import SA.Model.Security
+import SA.Gen.PkgVars
 namespace SA.Security
 open SA.Handshake
 
@@ -261,3 +262,16 @@ end SA.Security
 #print axioms SA.Security.C04_server_offers_iff
 #print axioms SA.Security.C04_starttls_all_or_nothing
 #print axioms SA.Security.C04_secure_flag_agrees
+
+namespace SA.PkgState
+/-- **no_hidden_process_state**: the models of this property are functions of their arguments and of the objects they are
+    handed; the packages they model keep no package-level variables besides these (regenerated inventory: error
+    sentinels, tables, compiled patterns, the two session time-outs).  A new package-level variable — a counter, a cache, a
+    scratch buffer, a shared map, a registry — would make later calls depend on earlier ones, or concurrent calls on each
+    other, outside anything a per-call comparison of model and code can see. -/
+theorem C04_no_hidden_process_state :
+    Gen.pkgVarNames_socketace = ["SupportedProtocolVersions"] ∧
+    Gen.pkgVarNames_upstream = [] := by decide
+end SA.PkgState
+
+#print axioms SA.PkgState.C04_no_hidden_process_state
